@@ -4,6 +4,7 @@ import (
 	"fmt"
 	"sort"
 	"strings"
+	"time"
 
 	"github.com/ja7ad/otp"
 	"github.com/ja7ad/otp/verifharness/ev"
@@ -64,6 +65,41 @@ func ocraVal(c c06Case, pairMode bool) (obs, bad string) {
 	}
 	if ok != (c.Code == gen) {
 		return obs, fmt.Sprintf("want %v", c.Code == gen)
+	}
+	return obs, ""
+}
+
+type c06Bad struct {
+	Family string `json:"family"` // ocra | hotp | totp
+	Secret string `json:"secret"` // undecodable
+	Code   string `json:"code"`   // the code under the key of a decodable PREFIX of that text
+}
+
+// badSecretRepeated: a validation with an undecodable secret is refused with (false, error) - the first time and
+// every time after (a decoder hands back the bytes of the decodable prefix together with its error; whoever
+// keeps them makes the second attempt succeed)
+func badSecretRepeated(c c06Bad) (obs, bad string) {
+	su, _ := otp.NewRawSuite("OCRA-1:HOTP-SHA1-6:QN08")
+	in := otp.OCRAInput{Challenge: []byte("12345678")}
+	for k := 0; k < 3; k++ {
+		var ok bool
+		var err error
+		if p := try(func() {
+			switch c.Family {
+			case "ocra":
+				ok, err = otp.ValidateOCRA(c.Secret, c.Code, su, in)
+			case "hotp":
+				ok, err = otp.ValidateHOTP(c.Secret, c.Code, 5, &otp.Param{Digits: 6, Skew: 1})
+			default:
+				ok, err = otp.ValidateTOTP(c.Secret, c.Code, time.Unix(59, 0), &otp.Param{Digits: 6, Period: 30, Skew: 1})
+			}
+		}); p != "" {
+			return obs + "panic:" + p, "panicked: " + p
+		}
+		obs += fmt.Sprint(ok, "|", errStr(err), ";")
+		if ok || err == nil {
+			return obs, fmt.Sprintf("attempt %d with an undecodable secret must be (false, error)", k+1)
+		}
 	}
 	return obs, ""
 }
@@ -152,10 +188,45 @@ func c06(r *ev.Run, pairMode bool) {
 	// neighbouring input, then for its own input - a code that shares memory with anything the library reuses would
 	// change under the validator's own derivation and compare equal to whatever that derivation produces
 	r.Scenario("ocra-validate-retained", func(raw []byte) (string, string) { return ocraRetained(unjson[c06Case](raw)) })
+	r.Scenario("undecodable-secret-repeated", func(raw []byte) (string, string) { return badSecretRepeated(unjson[c06Bad](raw)) })
 	if ReplayOnly {
 		return
 	}
 	if !pairMode {
+		var nb int64
+		rs6, _ := ref.ParseSuite("OCRA-1:HOTP-SHA1-6:QN08")
+		for _, key := range [][]byte{[]byte("12345678901234567890"), patt(10, 3), patt(33, 7)} {
+			sp := ref.B32Encode(key)
+			for _, b := range []string{sp + "!", sp + "0", sp + "=A", sp + "A=======B", sp[:8] + "!" + sp[8:], sp[:len(sp)-1] + "1", sp + "\u017f", sp + " x", "!" + sp} {
+				if v, _ := ref.B32Classify(b); v != ref.MustReject {
+					continue
+				}
+				// every decodable prefix of the text (8-symbol blocks and the whole valid part)
+				for cut := 8; cut <= len(b); cut += 8 {
+					v, pk := ref.B32Classify(b[:cut])
+					if v != ref.MustAccept || len(pk) == 0 {
+						continue
+					}
+					for _, fam := range []string{"ocra", "hotp", "totp"} {
+						code := ref.HOTP(pk, 5, 6, 0)
+						switch fam {
+						case "ocra":
+							code = ref.OCRA(pk, rs6, ref.OCRAIn{Challenge: []byte("12345678")})
+						case "totp":
+							code = ref.HOTP(pk, 1, 6, 0)
+						}
+						c := c06Bad{fam, b, code}
+						obs, bad := badSecretRepeated(c)
+						nb++
+						if bad != "" {
+							r.Fail("undecodable-secret-repeated", fmt.Sprintf("%s %q: %s", fam, b, bad), c, bad, obs)
+						}
+					}
+				}
+			}
+		}
+		r.Eval(nb)
+		r.Set("undecodable_secret_repeated", nb)
 		var n int64
 		for i, sh := range usableShapes([]int{60}) {
 			for k := 0; k < 3; k++ {
